@@ -30,6 +30,8 @@ func init() {
 			"Interface payloads include overlapping windows of one backing array ([]*Node views Backs[i][lo:hi] and []any views: same start/different length, different start, same header twice); deep equality is judged for them, what their copies share is only counted. " +
 			"Interface payloads also include structs held by value that have non-zero unexported fields (time.Time with and without a *Location, a harness struct with private fields and an exported reference); they must come out reflect.DeepEqual, and the monitor compares their unexported scalar fields itself (key unexported-field-lost:<type>). " +
 			"In path (b) each source hands its value over in one of three forms: pointer to the pointerified struct, addressable struct value, non-addressable struct value (reflect.ValueOf(v.Interface())); freshness is judged against every value handed over (key suffix :shared-with-non-addressable-source-value). " +
+			"Nodes are also held BY VALUE: entry shape holder-with-by-value-nodes (path a) and a holder config type (path b, defaults + no-op source + 0..2 re-stacks) place 1..6 nodes in Head (struct field), Arr ([2]Node) and Arena ([]Node) ahead of All/Idx/Any; a by-value node points at itself, at earlier by-value nodes and at heap nodes, anything may point at Head; the address of every addressable by-value struct takes part in the judged bijection (key split:pointer-to-by-value-struct). Pointers met BEFORE their by-value target is copied (forward pointers between arena elements, heap nodes pointing into the arena) are not generated: the copier gives those a stand-alone duplicate (order dependence, same class as interior pointers: observed, see FINDINGS). " +
+			"Every node has an array-valued map MA map[string][2]*Node (also as interface payload), judged like any other location (key suffix -in-array-valued-map). " +
 			"Empty non-nil maps and zero-length slices with spare capacity are generated in every position (struct field, map value, []any element, interface payload). " +
 			"A case is distinct and non-trivial when its judged graph contains a reference cycle or a pointer/map identity referenced from >=2 locations; signature = path + entry/scenario + plan JSON. " +
 			"Not generated (kept to the fixed corpus or out of scope): a []any that reaches itself without passing a pointer or map; two layers that both set Any with a pointer/struct/scalar payload. " +
@@ -101,17 +103,27 @@ func runC03(w *fw.Worker) {
 			return
 		}
 		maxNodes := w.Pick(12, 24)
-		if i%4 == 3 {
+		if i%4 == 3 && r.Chance(15) {
+			// by-value nodes in the defaults of a holder config type
+			p := c03GenPlan(r, "B", c03GenOpts{MaxNodes: maxNodes})
+			c03AddByValueNodes(r, p, r.Range(1, 6))
+			restacks := r.Intn(3)
+			w.BeginDesc(i, fmt.Sprintf("b-holder:restacks=%d:%s", restacks, c03JSON(p)))
+			c03RunHolderConfig(w, i, p, restacks, "")
+		} else if i%4 == 3 {
 			sc := c03GenScenario(r, maxNodes)
 			w.BeginDesc(i, "b:"+c03JSON(sc))
 			c03RunScenario(w, i, sc, "")
 		} else {
-			entry := r.Intn(5)
+			entry := r.Intn(6)
 			interior := 0
-			if r.Chance(6) {
+			if r.Chance(6) && entry != 5 {
 				interior = 40
 			}
 			p := c03GenPlan(r, "A", c03GenOpts{MaxNodes: maxNodes, Interior: interior})
+			if entry == 5 {
+				c03AddByValueNodes(r, p, r.Range(1, 6))
+			}
 			w.BeginDesc(i, fmt.Sprintf("a:entry=%d:%s", entry, c03JSON(p)))
 			c03RunDeepCopy(w, i, p, entry, "")
 		}
@@ -121,7 +133,7 @@ func runC03(w *fw.Worker) {
 // ---------------------------------------------------------------------------
 // path (a): the deep copier directly
 
-var c03EntryNames = []string{"root-pointer", "slice-of-all-nodes", "struct-value", "map-of-all-nodes", "addressable-struct"}
+var c03EntryNames = []string{"root-pointer", "slice-of-all-nodes", "struct-value", "map-of-all-nodes", "addressable-struct", "holder-with-by-value-nodes"}
 
 func c03RunDeepCopy(w *fw.Worker, i int, p *c03Plan, entry int, fixedName string) {
 	in := c03Build(p)
@@ -144,6 +156,9 @@ func c03RunDeepCopy(w *fw.Worker, i int, p *c03Plan, entry int, fixedName string
 			return m
 		case 4:
 			return b.root().Elem()
+		case 5:
+			c03FillHolder(b, p)
+			return b.holder
 		}
 		return b.root()
 	}
@@ -185,6 +200,8 @@ func c03Judge(w *fw.Worker, i int, where string, exp, out reflect.Value, ins []c
 	w.Count("held_identity_kept", iso.heldKept)
 	w.Count("held_identity_lost", iso.heldLost)
 	w.Count("unexported_fields_compared", iso.unexportedCompared)
+	w.Count("by_value_struct_locations_judged", iso.byValueLocs)
+	w.Count("by_value_structs_met_through_overlapping_views", iso.viewsMeasured)
 	w.Count("interior_pointers_measured", iso.interiorMeasured)
 	w.Count("interior_pointer_identity_lost", iso.interiorLost)
 	if iso.err != nil {
@@ -266,7 +283,7 @@ func c03Judge(w *fw.Worker, i int, where string, exp, out reflect.Value, ins []c
 
 const c03TwoLayers = "any-set-by-two-layers"
 
-var c03BFields = []string{"ID", "Kids", "Pair", "Pairs", "M", "MM", "Any", "Leaf"}
+var c03BFields = []string{"ID", "Kids", "Pair", "Pairs", "M", "MM", "Any", "Leaf", "MA"}
 
 type c03SrcPlan struct {
 	Plan *c03Plan `json:"plan"`
@@ -312,7 +329,7 @@ func c03GenScenario(r *fw.Rand, maxNodes int) *c03Scenario {
 	case mode < 5: // graph in one source only
 		sc.Defaults = c03TrivialPlan("B")
 		s := c03GenSrc(r, maxNodes, true)
-		s.Set = []string{"Kids", "Pair", "Pairs", "M", "MM", "Any", "Leaf"}
+		s.Set = []string{"Kids", "Pair", "Pairs", "M", "MM", "Any", "Leaf", "MA"}
 		sc.Sources = append(sc.Sources, s)
 	default: // both
 		sc.Defaults = c03GenPlan(r, "B", c03GenOpts{MaxNodes: maxNodes})
@@ -622,7 +639,78 @@ func c03AnySetters(cur []*c03SrcPlan) int {
 func (p *c03Plan) hasRefs() bool {
 	n := p.Nodes[0]
 	return n.Kids != nil || n.M >= 0 || n.MM >= 0 || n.Leaf >= 0 || (n.Any.K != "" && n.Any.K != "nil") || n.Pair != [2]int{-1, -1} || n.Pairs != nil ||
-		n.Skip >= 0 || n.SkipM >= 0 || n.SkipS != nil || (n.SkipAny.K != "" && n.SkipAny.K != "nil")
+		n.MA >= 0 || n.Skip >= 0 || n.SkipM >= 0 || n.SkipS != nil || (n.SkipAny.K != "" && n.SkipAny.K != "nil")
+}
+
+// c03NoopSource hands over an all-unset value of the pointerified type (and,
+// as a watcher, reports such values again): the holder's by-value nodes can
+// only come from the defaults, which every compose copies.
+type c03NoopSource struct {
+	typ   *dials.Type
+	args  dials.WatchArgs
+	given []c03Input
+}
+
+func (s *c03NoopSource) Value(_ context.Context, t *dials.Type) (reflect.Value, error) {
+	v := reflect.New(t.Type()).Elem()
+	s.given = append(s.given, c03Input{v: v})
+	return v, nil
+}
+
+func (s *c03NoopSource) Watch(_ context.Context, t *dials.Type, args dials.WatchArgs) error {
+	s.typ, s.args = t, args
+	return nil
+}
+
+// c03RunHolderConfig: dials.Config over a c03BHolder whose defaults hold
+// nodes by value (Head, Arr, Arena) with pointers to them from inside and
+// from the trailing fields; judged after Config and after each re-stack.
+func c03RunHolderConfig(w *fw.Worker, i int, p *c03Plan, restacks int, fixedName string) {
+	w.Count("b_holder_scenarios", 1)
+	w.SetAdd("b_modes", "holder-defaults-with-by-value-nodes")
+	witness := map[string]any{"plan": p, "restacks": restacks, "fixed": fixedName}
+	def := c03Build(p)
+	c03FillHolder(def, p)
+	defPtr := def.holder.Interface().(*c03BHolder)
+	src := &c03NoopSource{}
+	ctx, cancel := context.WithCancel(context.Background())
+	defer cancel()
+	d, err := dials.Config(ctx, defPtr, src)
+	if err != nil {
+		c03Viol(w, i, "config-error:holder", "dials.Config returned an error for a well-formed graph: "+err.Error(), witness)
+		return
+	}
+	judge := func(step string) bool {
+		view := d.View()
+		if view == nil {
+			c03Viol(w, i, "nil-view:"+step, "View returned nil", witness)
+			return false
+		}
+		exp := c03Build(p)
+		c03FillHolder(exp, p)
+		w.Count("b_views_judged", 1)
+		ins := append([]c03Input{{v: def.holder}}, src.given...)
+		return c03Judge(w, i, step, exp.holder, reflect.ValueOf(view), ins, exp, witness, "bh|"+step+"|"+c03JSON(p))
+	}
+	ok := judge("config-holder")
+	for k := 0; ok && k < restacks; k++ {
+		v := reflect.New(src.typ.Type()).Elem()
+		src.given = append(src.given, c03Input{v: v})
+		if rerr := src.args.BlockingReportNewValue(ctx, v); rerr != nil {
+			c03Viol(w, i, "restack-error:holder", "BlockingReportNewValue returned an error: "+rerr.Error(), witness)
+			break
+		}
+		w.Count("b_restacks", 1)
+		ok = judge("restack-holder")
+	}
+	cancel()
+	if done := dials.VerifMonitorDone(d); done != nil {
+		select {
+		case <-done:
+		case <-time.After(20 * time.Second):
+			w.Inconclusive(i, "monitor goroutine did not exit within the 20s watchdog after cancel")
+		}
+	}
 }
 
 // ---------------------------------------------------------------------------
@@ -633,15 +721,29 @@ type c03FixedCase struct {
 	Plan     *c03Plan     // path (a)
 	Entry    int          // path (a)
 	Scenario *c03Scenario // path (b)
+	// Custom: a hand-written case outside the plan machinery (c03RunCustom)
+	Custom string
+	// HolderRestacks >= 0 with a family-B Plan: c03RunHolderConfig
+	HolderRestacks int
 	// CrashKey: violation key used when the isolated child process dies on this case.
 	CrashKey string
 }
 
 func c03RunFixed(w *fw.Worker, i int, fc *c03FixedCase) {
 	w.SetAdd("fixed_cases", fc.Name)
+	if fc.Custom != "" {
+		w.BeginDesc(i, "fixed custom:"+fc.Name)
+		c03RunCustom(w, i, fc)
+		return
+	}
 	if fc.Scenario != nil {
 		w.BeginDesc(i, "fixed b:"+fc.Name+":"+c03JSON(fc.Scenario))
 		c03RunScenario(w, i, fc.Scenario, fc.Name)
+		return
+	}
+	if fc.Plan != nil && fc.Plan.Fam == "B" {
+		w.BeginDesc(i, "fixed b-holder:"+fc.Name+":"+c03JSON(fc.Plan))
+		c03RunHolderConfig(w, i, fc.Plan, fc.HolderRestacks, fc.Name)
 		return
 	}
 	w.BeginDesc(i, "fixed a:"+fc.Name+":"+c03JSON(fc.Plan))
